@@ -95,10 +95,15 @@ package annotatelexer
 
 //@ func (*AnnotateLexer).lookAheardToken
 //@   sweep C01
+//@   props C16
+//@   ensures[C16,a-waiting-token-is-left-as-it-is] old(l.aheadToken.valid) ==> l.aheadToken.valid && l.aheadToken.tokenKind == old(l.aheadToken.tokenKind)
 //@ end
 
+// C16: the kind returned is that of the token left waiting to be read
 //@ func (*AnnotateLexer).LookAheadKind
 //@   sweep C01
+//@   props C16
+//@   ensures[C16,answer-is-the-waiting-token] l.aheadToken.valid && result == l.aheadToken.tokenKind
 //@ end
 
 //@ func (*AnnotateLexer).GetRemainComment
@@ -117,10 +122,14 @@ package annotatelexer
 
 //@ func (*AnnotateLexer).GetHeardLoc
 //@   sweep C01
+//@   props C16
+//@   ensures[C16,a-waiting-token-is-left-as-it-is] old(l.aheadToken.valid) ==> l.aheadToken.valid && l.aheadToken.tokenKind == old(l.aheadToken.tokenKind)
 //@ end
 
 //@ func (*AnnotateLexer).GetNowLoc
 //@   sweep C01
+//@   props C16
+//@   ensures[C16,a-waiting-token-is-left-as-it-is] old(l.aheadToken.valid) ==> l.aheadToken.valid && l.aheadToken.tokenKind == old(l.aheadToken.tokenKind)
 //@ end
 
 //@ func (*AnnotateLexer).GetPreLoc
